@@ -7,6 +7,7 @@ package main
 
 import (
 	"fmt"
+	"sync"
 	"math/big"
 	"sort"
 	"strings"
@@ -43,6 +44,7 @@ type Term struct {
 	name  string
 	id    int
 	bound bool // mentions a bound variable (cannot be hoisted)
+	quant bool // contains a quantifier
 	bvars []*Term
 }
 
@@ -56,6 +58,7 @@ type FuncDef struct {
 }
 
 type Builder struct {
+	mu     sync.Mutex
 	tab    map[string]*Term
 	nextID int
 	vars   map[string]*Term // declared constants
@@ -97,6 +100,12 @@ func (b *Builder) mk(op string, args []*Term, s Sort, iv *big.Int, name string) 
 		if a.bound {
 			t.bound = true
 		}
+		if a.quant {
+			t.quant = true
+		}
+	}
+	if op == "forall" || op == "exists" {
+		t.quant = true
 	}
 	b.tab[key] = t
 	return t
